@@ -134,6 +134,17 @@ func init() {
 			}
 			return
 		}
+		if c.A["expect"] == "refuse-or-hide" {
+			// a recipient list the sender may refuse; if it does emit, box recipients must still not be named
+			if err == nil {
+				for i, pk := range unblist(c.A["boxes"]) {
+					if bytes.Contains(out, pk) {
+						fs = append(fs, Failure{Kind: "oracle", Key: "sc-wire-names-box-recipient", Desc: fmt.Sprintf("box recipient %d is named in the bytes (%s)", i, c.A["why"])})
+					}
+				}
+			}
+			return
+		}
 		if err != nil {
 			fs = append(fs, Failure{Kind: "oracle", Key: "sc-seal-fails", Desc: "signcryption failed: " + errClass(err)})
 			return
@@ -321,6 +332,12 @@ func init() {
 		if clean != (e == nil) || (e == nil && !bytes.Equal(pt, o.released)) || (e != nil && pt != nil) {
 			fs = append(fs, Failure{Kind: "oracle", Key: "sc-open-forms-disagree", Desc: fmt.Sprintf("stream: %.120s ; SigncryptOpen: %d bytes, %v", got, len(pt), e)})
 		}
+		if f := armoredFormFailure("sc-open", input, saltpack.MessageTypeEncryption, e, pt, func(txt string) ([]byte, bool, error) {
+			_, p2, _, e2 := saltpack.Dearmor62SigncryptOpen(txt, ring, res)
+			return p2, false, e2
+		}); f != nil {
+			fs = append(fs, *f)
+		}
 		if w, ok := c.A["want"]; ok {
 			bad := o.hdrErr != nil || o.end != io.EOF || !bytes.Equal(o.released, unhx(w))
 			if !bad {
@@ -343,6 +360,16 @@ func init() {
 				fs = append(fs, Failure{Kind: "oracle", Key: "sc-open-releases-unsigned-bytes", Desc: fmt.Sprintf("released %.80s attributed to the honest signer is not a prefix of anything it signcrypted (mutation %s)", hx(o.released), c.A["mut"])})
 			} else if o.end == io.EOF && !whole {
 				fs = append(fs, Failure{Kind: "oracle", Key: "sc-open-clean-end-on-partial-message", Desc: fmt.Sprintf("clean end after %d bytes of a longer message (mutation %s)", len(o.released), c.A["mut"])})
+			}
+		}
+		// anonymous sender: nobody but the recipients holds the payload key of the genuine message, so what
+		// a key-less manipulation of it makes the receiver release is still a prefix of it
+		if t, ok := c.A["truth"]; ok && c.A["honest"] == "anon" && o.hdrErr == nil && o.signer == nil {
+			whole, pref := isPrefixOfAny(o.released, unblist(t))
+			if !pref {
+				fs = append(fs, Failure{Kind: "oracle", Key: "sc-open-anon-releases-foreign-bytes", Desc: fmt.Sprintf("released %d bytes (%.40s...) that are not a prefix of the anonymous sender's plaintext (mutation %s)", len(o.released), hx(o.released), c.A["mut"])})
+			} else if o.end == io.EOF && !whole {
+				fs = append(fs, Failure{Kind: "oracle", Key: "sc-open-anon-clean-end-on-partial-message", Desc: fmt.Sprintf("clean end after %d bytes of a longer anonymous message (mutation %s)", len(o.released), c.A["mut"])})
 			}
 		}
 		return
